@@ -395,13 +395,17 @@ package xy
 //@   ensures (fresh(res) || res == nil) && len(res) >= 4 * calc.stride && whole(len(res), calc.stride)
 //@   modifies nothing
 
+// padding repeats the FIRST COORDINATE (every ordinate of it), so that every padded vertex is an input point
 //@ func convexHullCalculator.padArray3
 //@   floats real
-//@   requires calc.stride >= 1 && len(pts) >= 1
+//@   requires calc.stride >= 1 && len(pts) >= calc.stride
 //@   ensures fresh(res) && len(res) == 3 * calc.stride
+//@   ensures [kept] forall k int :: 0 <= k && k < len(pts) && k < len(res) ==> res[k] == pts[k]
+//@   ensures [first-coordinate] forall k int :: len(pts) <= k && k < len(res) ==> res[k] == pts[k % calc.stride]
 //@   modifies nothing
 //@   loop 1:
-//@     invariant len(pad) == 3 * calc.stride && fresh(pad) && i >= 0
+//@     invariant len(pad) == 3 * calc.stride && fresh(pad) && i >= 0 && i <= len(pad)
+//@     invariant forall k int :: 0 <= k && k < i ==> pad[k] == (k < len(pts) ? pts[k] : pts[k % calc.stride])
 
 // sorts its argument in place (first the lowest point to the front, then radially about it)
 //@ func convexHullCalculator.preSort
@@ -493,9 +497,11 @@ package xy
 //@     invariant q2 >= 0 && i == mul(q2, calc.stride) && mul(q2 + 1, calc.stride) == mul(q2, calc.stride) + calc.stride && len(inputPts) == mul(cnt(len(inputPts), calc.stride), calc.stride) && i <= len(inputPts)
 //@     invariant fresh(reducedSet) && reducedSet.layout == calc.layout && reducedSet.size >= 1
 
+// c2 lies on the segment c1-c3 (and that segment is not a single point)
 //@ func convexHullCalculator.isBetween
 //@   floats real
 //@   requires len(c1) >= 2 && len(c2) >= 2 && len(c3) >= 2
+//@   ensures res <==> !(c1[0] == c3[0] && c1[1] == c3[1]) && onSeg(c2[0], c2[1], c1[0], c1[1], c3[0], c3[1])
 //@   modifies nothing
 
 //@ func convexHullCalculator.cleanRing
